@@ -17,7 +17,7 @@ func init() {
 			"(or shares its block with) `modified = true`, and every `modified = true` is followed on every path by such a change (R04a); every node type the simplifier constructs has a case in " +
 			"every printer switch over the interfaces it implements, so the result still prints (R04b); a rewrite that throws a node away has looked at every meaning-carrying field of it: each field " +
 			"of the discarded node is kept, a position, a comment list, or read in a condition guarding the rewrite (R04c); string builders shared across loop iterations are reset on every path back " +
-			"to the loop head (R04d).",
+			"to the loop head (R04d). Test operators whose right-hand side the interpreter evaluates as a pattern are protected from the operand rewrites (R04e).",
 		NotDecided:  "that each rewrite preserves meaning (quoting, arithmetic and test semantics are value-level); the order in which visit normalises and then decides (e.g. `=` to `==` before the unquoting decision).",
 		Assumptions: []string{"the simplifier changes trees only through field stores, element stores and replaced return values in syntax/simplify.go (methods of *simplifier, enumerated)"},
 		Controls:    c04Controls,
